@@ -17,6 +17,12 @@ package discovery
 // lookup in the model chain, strict freshness against the snapshot); every
 // message handed to Broadcast must be byte-identical to a submitted message
 // that the reference judged valid when it was applied.
+//
+// Zombie phase (after the 40 steps, own PRNG stream): channels are brought
+// into the zombie index of the real graph DB in every key shape, then targeted
+// by channel_updates (signer x direction bit x timestamp class) and
+// channel_announcements; oracle zombie_stays_dead_unless_authentic, see the
+// "Zombie index" section below.
 
 import (
 	"bytes"
